@@ -115,6 +115,11 @@ func init() {
 						flags[f] = true
 					}
 				}
+				if strings.Contains(cond, "types.IsNumeric") {
+					// types.IsNumeric = IsInteger | IsFloat | IsComplex
+					delete(flags, "IsNumeric")
+					flags["IsInteger"], flags["IsFloat"], flags["IsComplex"] = true, true, true
+				}
 				switch {
 				case len(flags) == 1 && flags["IsBoolean"] && strings.Contains(cond, "!=0"):
 					classes["boolean"] = form
@@ -158,7 +163,31 @@ func init() {
 					switch {
 					case strings.HasPrefix(why, "default of"):
 						cc, _ := fi.enclosing(cl, func(n ast.Node) bool { _, ok := n.(*ast.CaseClause); return ok }).(*ast.CaseClause)
-						r.Check(cc != nil && cc.List == nil, key, cl.Pos(), "panic is the default clause of a switch: %s", why)
+						isDefault := cc != nil && cc.List == nil
+						if !isDefault {
+							// a trailing panic after a run of `if … { return }` arms plays the same role
+							var list []ast.Stmt
+							switch p := fi.parent[fi.stmtOf(cl)].(type) {
+							case *ast.BlockStmt:
+								list = p.List
+							case *ast.CaseClause:
+								list = p.Body
+							}
+							if len(list) >= 2 && list[len(list)-1] == fi.stmtOf(cl) {
+								if prev, ok := list[len(list)-2].(*ast.IfStmt); ok && terminates(prev.Body) {
+									isDefault = true
+								}
+							}
+						}
+						if !isDefault {
+							// the final else of an if-chain plays the same role
+							if blk, ok := fi.parent[fi.stmtOf(cl)].(*ast.BlockStmt); ok {
+								if is, ok := fi.parent[blk].(*ast.IfStmt); ok && is.Else == ast.Stmt(blk) {
+									isDefault = true
+								}
+							}
+						}
+						r.Check(isDefault, key, cl.Pos(), "panic is the default arm of an exhaustive dispatch: %s", why)
 					default:
 						r.Ok(key, cl.Pos(), "%s", why)
 					}
@@ -570,6 +599,63 @@ func init() {
 				if v == nil {
 					return false, "computed index"
 				}
+				// a variable all of whose definitions are in range: `len(T)-1` of a never-empty list,
+				// or the key of a range over T, where T is this sequence or one tested to have the same length
+				if ds := fi.defs[v]; len(ds) >= 2 {
+					sameLen := func(t ast.Expr) bool {
+						if lenOf(&ast.CallExpr{Fun: ast.NewIdent("len"), Args: []ast.Expr{t}}) {
+							return true
+						}
+						for _, g := range fi.Guards(at) {
+							be, isB := ast.Unparen(g.Expr).(*ast.BinaryExpr)
+							if !isB || !((g.Neg && be.Op == token.NEQ) || (!g.Neg && be.Op == token.EQL)) {
+								continue
+							}
+							l1, l2 := fi.isBuiltin(be.X, "len"), fi.isBuiltin(be.Y, "len")
+							if l1 == nil || l2 == nil {
+								continue
+							}
+							if (lenOf(be.X) && fi.sameExpr(l2.Args[0], t)) || (lenOf(be.Y) && fi.sameExpr(l1.Args[0], t)) {
+								return true
+							}
+						}
+						return false
+					}
+					all := true
+					for _, d := range ds {
+						switch {
+						case d.kind == "range-key":
+							if rs, isR := d.node.(*ast.RangeStmt); !isR || !sameLen(rs.X) {
+								all = false
+							}
+						case d.rhs != nil:
+							okD := false
+							if be, isB := ast.Unparen(d.rhs).(*ast.BinaryExpr); isB && be.Op == token.SUB && types.ExprString(be.Y) == "1" {
+								if l := fi.isBuiltin(be.X, "len"); l != nil && sameLen(l.Args[0]) {
+									// never-empty by construction of the syntax tree
+									if f := fi.selField(l.Args[0]); f != nil && f.Name() == "Names" {
+										okD = true
+									}
+								}
+							}
+							if rk := fi.varOf(d.rhs); rk != nil && !okD {
+								for _, d2 := range fi.defs[rk] {
+									if rs, isR := d2.node.(*ast.RangeStmt); isR && d2.kind == "range-key" && sameLen(rs.X) {
+										okD = true
+									}
+								}
+							}
+							if !okD {
+								all = false
+							}
+						default:
+							all = false
+						}
+					}
+					if all {
+						return true, "every definition of the index is a position of a list of the same length"
+					}
+				}
 				// loop variable bounded by the same length
 				for p := fi.parent[at]; p != nil; p = fi.parent[p] {
 					switch l := p.(type) {
@@ -596,7 +682,7 @@ func init() {
 						n++
 						key := fi.Name + "/" + seq + "[" + exprShort(x.Index) + "]"
 						lenOf := func(e ast.Expr) bool {
-							l := fi.isBuiltin(e, "len")
+							l := fi.isBuiltin(fi.deref(e), "len")
 							return l != nil && fi.sameExpr(l.Args[0], x.X)
 						}
 						ok, why := bounded(fi, x, x.Index, lenOf)
@@ -637,7 +723,7 @@ func init() {
 						n++
 						key := fi.Name + "/" + short + "(" + exprShort(x.Args[0]) + ")"
 						lenOf := func(e ast.Expr) bool {
-							lc := fi.isCall(e, lenName)
+							lc := fi.isCall(fi.deref(e), lenName)
 							return lc != nil && fi.sameExpr(recvOf(lc), recvOf(x))
 						}
 						ok, why := bounded(fi, x, x.Args[0], lenOf)
@@ -663,7 +749,31 @@ func init() {
 
 	register("C20.R6", "positions: every error recorded by the drivers carries a position — each argument of ec.add in generateInjectors and Load and every error returned by gen.inject / checkCalls is produced by notePosition, notePositionAll or mapErrors(…notePosition…)",
 		func(c *Ctx, r *R) {
-			positioned := func(fi *FuncInfo, e ast.Expr) (bool, string) {
+			var positioned func(fi *FuncInfo, e ast.Expr) (bool, string)
+			seenFn := map[*FuncInfo]bool{}
+			// every error a helper returns is positioned
+			positionedFn := func(cf *FuncInfo) bool {
+				if cf == nil || seenFn[cf] {
+					return false
+				}
+				seenFn[cf] = true
+				defer delete(seenFn, cf)
+				n := 0
+				for _, ret := range cf.returnsOf() {
+					if len(ret.Results) != 1 {
+						return false
+					}
+					if cf.isNilIdent(ret.Results[0]) {
+						continue
+					}
+					n++
+					if ok, _ := positioned(cf, ret.Results[0]); !ok {
+						return false
+					}
+				}
+				return n > 0
+			}
+			positioned = func(fi *FuncInfo, e ast.Expr) (bool, string) {
 				e = fi.deref(e)
 				if fi.isCall(e, fnNotePos, fnNotePosAll) != nil {
 					return true, "notePosition"
@@ -673,7 +783,7 @@ func init() {
 						all := true
 						ast.Inspect(lit.Body, func(nd ast.Node) bool {
 							if ret, ok := nd.(*ast.ReturnStmt); ok && len(ret.Results) == 1 {
-								if fi.isCall(ret.Results[0], fnNotePos) == nil {
+								if ok2, _ := positioned(fi, ret.Results[0]); !ok2 {
 									all = false
 								}
 							}
@@ -687,6 +797,9 @@ func init() {
 					switch fi.calleeName(cl) {
 					case pathW + ".gen.inject", pathW + ".checkCalls":
 						return true, "result of a function whose every error is positioned (checked below)"
+					}
+					if cf := fi.C.FnOf(fi.callee(cl)); cf != nil && positionedFn(cf) {
+						return true, "result of helper " + cf.Name + " whose every returned error is positioned"
 					}
 				}
 				return false, "bare error: " + exprShort(e)
